@@ -1,4 +1,4 @@
-From AQ Require Import lib.Base model.H3Parse proofs.H3Chunk proofs.H3Split proofs.H3Loop proofs.H3Recv proofs.H3Fin proofs.H3Uni proofs.H3Table proofs.H3Push.
+From AQ Require Import lib.Base model.H3Parse proofs.H3Chunk proofs.H3Split proofs.H3Loop proofs.H3Recv proofs.H3Fin proofs.H3Uni proofs.H3Table proofs.H3Push proofs.H3UniN.
 
 (* On the code as pinned, the events of a request stream depend on the chunking: three byte strings for which
    whole delivery and a two-chunk delivery give different normalised events (end-of-stream marker). *)
@@ -130,6 +130,30 @@ Theorem chunking_independent_uni :
          (ubind (uni_full fx O st c a false) (fun st1 c1 => uni_full fx O st1 c1 b fin)).
 Proof. exact uni_two. Qed.
 Print Assumptions chunking_independent_uni.
+
+(* ... and ANY NUMBER of deliveries: every unidirectional stream state satisfying uinv -- true of a new stream
+   (chunking_uni_hypothesis_fresh) and kept by every delivery without FIN (chunking_uni_hypothesis_preserved), so of every
+   state such a stream can be in between two deliveries --, every first chunk and list of further chunks (mk_chunks: FIN on
+   the last one, an empty last part = FIN as a delivery of its own, fin = false = no FIN yet): feeding the chunks one by
+   one (ufeed) = one delivery of their concatenation: same normalised events, same stream state, same connection state,
+   same unblocked stream ids in the same order, or the same close code / exception. *)
+Theorem chunking_independent_uni_any_number_of_deliveries :
+  forall fx O, fx_trunc fx = true -> fx_endmark fx = true -> ds_seq O -> enc_seq O ->
+  forall parts st c first fin, uinv st ->
+  (fin = true -> is_ctrl st (first ++ concat parts) = false) ->
+  uequiv (ufeed fx O st c (mk_chunks first parts fin)) (uni_full fx O st c (first ++ concat parts) fin).
+Proof. exact uni_chunks. Qed.
+Print Assumptions chunking_independent_uni_any_number_of_deliveries.
+
+Theorem chunking_uni_hypothesis_fresh : forall sid, uinv (new_stream sid).
+Proof. exact uinv_fresh. Qed.
+Print Assumptions chunking_uni_hypothesis_fresh.
+
+Theorem chunking_uni_hypothesis_preserved :
+  forall fx O, fx_trunc fx = true -> fx_endmark fx = true ->
+  forall st c d e st1 c1 u, uinv st -> uni_full fx O st c d false = UF e st1 c1 u -> uinv st1.
+Proof. exact uinv_preserved. Qed.
+Print Assumptions chunking_uni_hypothesis_preserved.
 
 Theorem uni_is_receive_stream_data :
   forall fx O c0 sid data fin, is_uni sid = true ->
